@@ -160,6 +160,7 @@ def c17(res):
 def c18(res):
     wd = workdir("C18")
     q = res.tier == "quick"
+    res.models.append(prove("CanvasAlgebraProof", wd))
     res.models.append(model_check("Canvas", "Canvas_quick.cfg" if q else "Canvas_thorough.cfg", wd, workers=8, timeout=6000))
     hists = os.path.join(wd, "hists.out")
     res.gens.append(generate("Canvas", "CanvasGen_quick.cfg" if q else "CanvasGen_thorough.cfg", wd, hists, workers=4, timeout=3000))
@@ -508,6 +509,8 @@ def c14(res):
 def c03(res):
     wd = workdir("C03")
     q = res.tier == "quick"
+    res.models.append(prove("IntervalMulProof", wd))
+    res.models.append(prove("IntervalOpsProof", wd))
     res.models.append(model_check("Interval", "Interval_quick.cfg" if q else "Interval_thorough.cfg", wd, workers=8, timeout=3000))
     progs = gen_programs(res, wd)
     trace = os.path.join(wd, "trace.ndjson")
